@@ -83,6 +83,8 @@ def ephemeral_id(*args, **kwargs):
 class SessionManager(GrantManager):
     parameter = Database.parameter.copy()
     # parameter.update({"salt": ""})
+    # pending backchannel authentication requests
+    parameter.update({"auth_req_id_map": {}})
     init_args = ["token_handler_args", "upstream_get"]
 
     def __init__(
